@@ -8,7 +8,8 @@ CHECKS = {
                 "2-variable networks, all 9 348 canonical 3-variable networks over <=2-input functions, the reference-defined "
                 "catalogues of all 561 multi-attractor, 461 all-NFVS multi-attractor and a seed-selected complete shard of the "
                 "137 369 motif-avoidant and 896 525 all-NFVS 3-variable networks, kernel networks and their disjoint unions, "
-                "4-variable products, input-conditioned networks) x all six complete strategies is executed on the real code "
+                "4-variable products, input-conditioned networks) x all six complete strategies (plus DFS followed by an unrefined "
+                "candidates query on every node) is executed on the real code "
                 "and the reported seeds are compared with the terminal SCCs of the explicit state-transition graph.",
         "ref": "DESIGN.md §3 C01", "note": TB,
         "technique": "explicit-state model checking: exhaustive input-universe enumeration against an explicit STG reference model",
@@ -95,7 +96,8 @@ CHECKS = {
                 "completion route (skip_remaining; skip_to_minimal on every subset of stubs; minimal-space expansion with skip_ignored) x "
                 "seed-query order (ascending, descending, all permutations on small diagrams), all executed on the real code; every "
                 "reference attractor must be reported, every seed must lie in an attractor inside its node, and without motif-avoidant "
-                "attractors each attractor exactly once.",
+                "attractors each attractor exactly once. Universes include every union of two kernel networks (thorough; a shard "
+                "plus the three overlap-with-motif-avoidant unions behind defect D12 in quick).",
         "ref": "DESIGN.md §3 C05", "note": TB, "technique": "explicit-state model checking: exhaustive enumeration of inputs, partial-expansion histories, completion routes and query orders",
     },
     "C06": {
